@@ -312,7 +312,7 @@ def project(pid, op, group, canon, ctx):
     if pid == "C12":
         return "\n".join(c(e) for e in evs)
     if pid == "C15":
-        if cmd in CREATE or cmd in ("reset", "alive", "stats", "locked", "resget", "reshas"):
+        if cmd in CREATE or cmd in ("reset", "alive", "stats", "locked", "resget", "reshas", "reslook"):
             return res
         if cmd == "qall":
             return qall_set(c(res))
@@ -322,7 +322,7 @@ def project(pid, op, group, canon, ctx):
             return "~" + c(res)
         return None
     if pid == "C16":
-        if cmd in ("reg", "resreg"):
+        if cmd in ("reg", "resreg", "reslook"):
             return res
         if cmd in STRUCT_SINGLE or cmd in ("get", "has", "qall", "snapshot"):
             return c(res) if cmd not in STRUCT_SINGLE else status(res)
@@ -344,7 +344,7 @@ def project(pid, op, group, canon, ctx):
                 return "~" + res
         return None
     if pid == "C20":
-        if cmd in ("resadd", "resrem", "resget", "reshas", "resreg"):
+        if cmd in ("resadd", "resrem", "resget", "reshas", "resreg", "reslook"):
             return res
         return None
     if pid == "ALL":
